@@ -20,6 +20,7 @@ use minijinja::machinery::{tokenize, Token, WhitespaceConfig};
 use minijinja::syntax::SyntaxConfig;
 use minijinja::Environment;
 use mjverif::*;
+use std::collections::HashMap;
 
 fn mark(m: i64) -> &'static str {
     match m {
@@ -39,6 +40,10 @@ fn nl(n: i64) -> &'static str {
 }
 
 fn main() {
+    // one environment for the whole run (every setting is overwritten per case); built syntax
+    // configurations are cached per delimiter set
+    let mut env = Environment::new();
+    let mut cache: HashMap<Vec<String>, Result<SyntaxConfig, i64>> = HashMap::new();
     serve(2, |c| {
         let mode = c.i64();
         let bits = c.i64();
@@ -102,22 +107,24 @@ fn main() {
             }
             s
         };
-        let mut b = SyntaxConfig::builder();
-        b.block_delimiters(d[0].clone(), d[1].clone())
-            .variable_delimiters(d[2].clone(), d[3].clone())
-            .comment_delimiters(d[4].clone(), d[5].clone())
-            .line_statement_prefix(d[6].clone())
-            .line_comment_prefix(d[7].clone());
-        let syntax = match b.build() {
-            Ok(s) => s,
-            Err(e) => return vec!["1".into(), err_code(e.kind()).to_string()],
+        let built = cache.entry(d.clone()).or_insert_with(|| {
+            let mut b = SyntaxConfig::builder();
+            b.block_delimiters(d[0].clone(), d[1].clone())
+                .variable_delimiters(d[2].clone(), d[3].clone())
+                .comment_delimiters(d[4].clone(), d[5].clone())
+                .line_statement_prefix(d[6].clone())
+                .line_comment_prefix(d[7].clone());
+            b.build().map_err(|e| err_code(e.kind()))
+        });
+        let syntax = match built {
+            Ok(s) => s.clone(),
+            Err(code) => return vec!["1".into(), code.to_string()],
         };
         let ws = WhitespaceConfig {
             trim_blocks: bits & 1 != 0,
             lstrip_blocks: bits & 2 != 0,
             keep_trailing_newline: bits & 4 != 0,
         };
-        let mut env = Environment::new();
         env.set_trim_blocks(ws.trim_blocks);
         env.set_lstrip_blocks(ws.lstrip_blocks);
         env.set_keep_trailing_newline(ws.keep_trailing_newline);
